@@ -26,17 +26,22 @@ META = {
     "level_text": "Machine-checked, unbounded theorems over R about the model (Props.v): C07_definitions (every formula = "
                   "its textbook expression; full), C07_rigid_invariance (every rotation matrix R^T R = I, det 1, every "
                   "translation, every well-formed mesh: all attributes invariant / equivariant, incl. vertex normals for the "
-                  "three weightings and the global sums and means; full except face_circumcenter), C07_scaling (powers s, "
-                  "s^2, s^3, 1 of every formula; full at formula level), C07_angle_sum (the three (cos,sin) pairs compose to "
-                  "(-1,0) AND atan2 of them sums to PI; full), C07_gauss_bonnet (sum of the model's defects = 2 pi chi for "
-                  "every triangulation satisfying an explicit, boolean-checkable manifold condition, closed or with border; "
-                  "counting lemmas 3F=2Ei+Eb, Vb=Eb proved; full), C07_interpolate_constant (5 of the 6 functions, all "
-                  "averaging weightings; average_corners_to_faces is tested only), C07_circumcenter (equidistant + in-plane "
-                  "for the repaired code; full), C07_renumbering_partial (per-edge/face/corner/cell quantities and face "
-                  "rotation for triangles and quads; vertex-indexed accumulations under renumbering are tested only), "
-                  "C07_face_normal_rotation_refuted (recorded finding: the normal of a skew quad depends on where its vertex "
-                  "list starts). The model is tied to the code by the translator and by kernel-evaluated correspondence "
-                  "batches over every function and option.",
+                  "three weightings, circumcentres and the global sums and means; full), C07_scaling (powers s, s^2, s^3, 1: "
+                  "every formula AND every attribute of the scaled mesh; full, circumcentre excepted - see the finding), "
+                  "C07_renumbering (vertex renumbering: per-edge/face/corner/cell attributes unchanged, per-vertex "
+                  "attributes - degree, border flags, angle defects, vertex normals, faces->vertices and corners->vertices "
+                  "interpolation - moved along sigma; face rotation: area of every polygon incl. the n-gon fan; permuting "
+                  "and rotating the face list with values and weights carried along leaves the faces->vertices accumulation "
+                  "unchanged (one generic commutative-accumulation lemma, instantiated for scalars and vectors); full), "
+                  "C07_angle_sum (pairs compose to (-1,0) AND atan2 of them sums to PI; full), C07_gauss_bonnet (every "
+                  "triangulation satisfying an explicit boolean-checkable manifold condition, closed or with border; full), "
+                  "C07_interpolate_constant (all six functions, all averaging weightings; full), C07_circumcenter "
+                  "(equidistant + in-plane whenever a point is returned; full), C07_face_normal_rotation_refuted and "
+                  "C07_circumcenter_guard_refuted (recorded findings: skew-quad normal depends on the start of the vertex "
+                  "list; the absolute |det|<1e-12 guard denies small triangles their circumcentre). The model is tied to "
+                  "the code by the translator and by kernel-evaluated correspondence batches over every function and "
+                  "option, including multi-step scenarios (persistent attributes, vertices moved, recomputation) whose "
+                  "stale-cache failures are recorded findings.",
     "level_note": "Trusted: Coq kernel + vm_compute + PrimFloat; the C07 translator; the correspondence harness "
                   "(generators, driver, tolerance 1e-9(1+|x|) on exactly representable inputs, Python's math.cos/sin used "
                   "to relate an atan2 output to the model's (cos,sin) pair, math.atan2 itself identified with the angle in "
